@@ -57,6 +57,7 @@ import AutosarVerif.Lemmas.IdsSepX
 import AutosarVerif.Lemmas.CheckRefsWitness
 import AutosarVerif.Lemmas.CheckRefsReal
 import AutosarVerif.Lemmas.SetRefWitness
+import AutosarVerif.Lemmas.LoadInv
 
 namespace AV.C05
 open AV.W
@@ -198,5 +199,16 @@ theorem C05_real_tables : RefWF AV.Gen.realSpec := AV.Gen.realSpec_refWF
 /-- non-vacuity: the hypotheses are met by `refSpec` / `nameEnv`, the history `refOps` is guarded, and the theorem applies -/
 theorem C05_hypotheses_are_met : IdxHyp refSpec nameEnv 6 ∧ RefWF refSpec ∧ (∀ op ∈ refOps, OpOk refSpec 6 op) ∧
     CInv refSpec 6 (run refSpec nameEnv [] refOps) := ⟨refSpec_hyp, refSpec_refWF, refOps_ok, refOps_cinv⟩
+
+
+/-! ### added later in the third session (loads, cross-model moves, merge order): restated by name
+(`type_of%` keeps the statement identical to the lemma; the signature is quoted in the comment) -/
+
+/-- `theorem runParser_refs (hchars : ∀ t, S.isRef t = true → S.mode t = .characters) (strict : Bool) (buf : Bytes) (nid nmAutosar : Nat) (h : Hdr) (k : Items) (st : PState) (hr : runParser S V strict buf nid nmAutosar = (.ok (h, k), st)) (h1 : RefOne S (.elem h k .nil)) : st.refs = refEntries S (.elem h k .nil)` -/
+theorem C05_parser_collects_exactly_the_references : type_of% @AV.LoadInv.runParser_refs := @AV.LoadInv.runParser_refs
+
+/-- negation witness (the C05 face of c01:comment-splits-character-data): a reference text interrupted by a comment is registered twice, the element then has no character data
+`theorem ref_split_not_exact : ¬ ∀ m ∈ (opLoad ldRefSpec toyEnv 100 (w0 ldRefSpec) 0 [102] true refDoc).1.models, RefsExact ldRefSpec m.refs m.rootItems` -/
+theorem C05_witness_reference_text_split_by_comment : type_of% @AV.LoadInv.Witness.ref_split_not_exact := @AV.LoadInv.Witness.ref_split_not_exact
 
 end AV.C05
